@@ -20,6 +20,7 @@ type Gen struct {
 	PUnset        int
 	PRequired     int
 	PEnv          int
+	PSuggested    int
 	PValid        int
 	PAliases      int
 	PLateOpts     int
@@ -38,7 +39,7 @@ type Gen struct {
 func NewGen(seed int64) *Gen {
 	return &Gen{r: rand.New(rand.NewSource(seed)),
 		MaxDepth: 2, MaxCmds: 3, MaxOpts: 5, PHelp: 40, PRequireOrder: 15, PUnset: 10, PRequired: 10,
-		PEnv: 15, PValid: 10, PAliases: 50, PLateOpts: 10, PSettingsLate: 20, PExoticNames: 15, PMalformed: 15,
+		PSuggested: 10, PEnv: 15, PValid: 10, PAliases: 50, PLateOpts: 10, PSettingsLate: 20, PExoticNames: 15, PMalformed: 15,
 		Kinds: []int{0, 1, 2, 3, 4, 5, 6, 7, 8, 9, 10, 11}, Modes: []int{0, 1, 2}, UModes: []int{-1, 0, 1, 2}, MaxArgv: 8}
 }
 
@@ -136,8 +137,16 @@ func (g *Gen) genOpt(used map[string]bool) OptDef {
 		} else {
 			o.Valid = []string{"foo", "bar", "a b", "fo\"o"}[:2+g.r.Intn(3)]
 		}
-	} else if g.pct(10) {
-		o.Suggested = []string{"sugg1", "sugg2", "other"}[:1+g.r.Intn(3)]
+	} else if g.pct(g.PSuggested) {
+		switch g.r.Intn(6) {
+		case 0:
+			// values that end in or contain `=` (a single candidate ending in `=` takes the hint path)
+			o.Suggested = []string{"k=", "key=val"}[:1+g.r.Intn(2)]
+		case 1:
+			o.Suggested = []string{"x="}
+		default:
+			o.Suggested = []string{"sugg1", "sugg2", "other"}[:1+g.r.Intn(3)]
+		}
 	}
 	if g.pct(8) {
 		o.SuggestFn = 1 + g.r.Intn(4)
